@@ -113,9 +113,9 @@ fn embedded_status(details: &[u8]) -> Option<(i64, String, usize)> {
 
 pub fn run(cfg: &RunCfg) -> Ctx {
     let mut all = Ctx::new();
-    all.merge(par_cases(cfg, "vec", cfg.n(16_000, 16 * 40_000), || (), |_, rng, ctx, _| vec_case(rng, ctx)));
-    all.merge(par_cases(cfg, "set", cfg.n(16_000, 16 * 40_000), || (), |_, rng, ctx, i| set_case(rng, ctx, i)));
-    all.merge(par_cases(cfg, "garbage", cfg.n(16_000, 16 * 40_000), || (), |_, rng, ctx, _| garbage_case(rng, ctx)));
+    all.merge(par_cases(cfg, "vec", cfg.n(16_000, 16 * 600_000), || (), |_, rng, ctx, _| vec_case(rng, ctx)));
+    all.merge(par_cases(cfg, "set", cfg.n(16_000, 16 * 600_000), || (), |_, rng, ctx, i| set_case(rng, ctx, i)));
+    all.merge(par_cases(cfg, "garbage", cfg.n(16_000, 16 * 600_000), || (), |_, rng, ctx, _| garbage_case(rng, ctx)));
     for k in 0..10 {
         all.floor(&format!("kind.{}", k), 10);
     }
